@@ -23,11 +23,12 @@ type params struct {
 	twice     bool   // fail in the first two incarnations
 	hookFail  string // none | prerestart | restarted
 	slowDec   bool   // the supervisor's decision maker answers only after the failed child has been killed by somebody else
+	lateSpawn bool   // an outside goroutine spawns a top-level actor while the system is being stopped
 	watch     string // none | b-dies-first: b watches a, b is killed, then a is killed (a's notification finds a dead watcher)
 }
 
 func (p params) name() string {
-	return fmt.Sprintf("site=%s/%s/dec=%s/prov=%v/become=%v/kill=%s/prelaunch=%s/twice=%v/hook=%s", p.site, p.cause, p.decision.String(), p.provider, p.become, p.kill, p.prelaunch, p.twice, p.hookFail) + map[bool]string{true: "/slow-decision", false: ""}[p.slowDec] + map[bool]string{true: "/watch=" + p.watch, false: ""}[p.watch != "" && p.watch != "none"]
+	return fmt.Sprintf("site=%s/%s/dec=%s/prov=%v/become=%v/kill=%s/prelaunch=%s/twice=%v/hook=%s", p.site, p.cause, p.decision.String(), p.provider, p.become, p.kill, p.prelaunch, p.twice, p.hookFail) + map[bool]string{true: "/late-spawn", false: ""}[p.lateSpawn] + map[bool]string{true: "/slow-decision", false: ""}[p.slowDec] + map[bool]string{true: "/watch=" + p.watch, false: ""}[p.watch != "" && p.watch != "none"]
 }
 
 func fail(ctx vivid.ActorContext, cause string) {
@@ -184,6 +185,13 @@ func scenario(p params, bounds []int) *vexp.Scenario {
 					x.Fail("prelaunch-failure-silent", "Prelaunch failed at spawn but /p/a is registered")
 				}
 			}
+			if p.lateSpawn {
+				vrt.Go("late-spawner", func() {
+					if _, err := w.SpawnRoot(&vsys.Script{Name: "late"}); err != nil {
+						x.Logf("late ActorOf: %v", err)
+					}
+				})
+			}
 			if err := w.Sys.Stop(); err != nil {
 				x.Logf("stop: %v", err)
 			}
@@ -267,6 +275,13 @@ func build(tier string) []*vexp.Scenario {
 		q := base
 		q.kill, q.watch = k, "b-dies-first"
 		add(q)
+	}
+	// a spawn racing the kill of its parent (the root, through System.Stop)
+	{
+		q := base
+		q.lateSpawn = true
+		out = append(out, scenario(q, []int{0, 1, 2}))
+		out = append(out, vexp.Fine(scenario(q, []int{0, 1}), "vivid/internal/actor.", "vivid/internal/mailbox."))
 	}
 	// prelaunch failures
 	p := base
